@@ -44,7 +44,9 @@ TFReply == /\ IsEvent("FReply") /\ Ev.sess \in Sessions
               ELSE Ev.h \in Honest /\ client[Ev.h][Ev.sess].act /\ Ev.f \in Faulty /\ UNCHANGED vars
 TMsg == /\ IsEvent("Msg") /\ Ev.sess \in Sessions /\ Ev.r \in Honest
         /\ LET sigs == SigList(Ev.sigs)
-               v == Verify(Ev.sess, Ev.id, Pl(Ev.pl), sigs) IN
+               \* the design's rule, whatever r accepted before (SigCache = "none": exactly Verify): an ACCEPTED
+               \* signature set replayed with another payload / id / in another session must not reach the callback
+               v == Passes(Ev.r, Ev.sess, Ev.id, Pl(Ev.pl), sigs) IN
            /\ IF Ev.from \in Faulty
                 THEN \/ FSend(Ev.from, Ev.r, Ev.sess, Ev.id, Pl(Ev.pl), sigs)
                      \/ RelayForeignPayload(Ev.from, Ev.r, Ev.sess, Ev.id, Pl(Ev.pl), sigs)     \* deviation cfg only
